@@ -126,9 +126,78 @@ def run(ctx):
             skel = re.sub(r'[A-Za-z_][\w%]*', 'x', s)
             skel = re.sub(r'\d+(\.\d+)?(_x)?', 'n', skel).replace(' ', '')
             fails.setdefault(skel, (s, tree, clause))
-    # keep the shortest skeletons as representatives
-    for skel, (s, tree, clause) in sorted(fails.items(), key=lambda kv: len(kv[0]))[:40]:
-        ctx.violation('parse_expr:' + skel, f'parse_expr({s!r}) = {X.show(tree)}: {clause}', {'text': s})
+    # shrink the shortest representatives on the token level (batched re-validation), then key by skeleton
+    reps = sorted(fails.items(), key=lambda kv: len(kv[0]))[:30]
+
+    def skeleton(text):
+        import re
+        sk = re.sub(r'[A-Za-z_][\w%]*', 'x', text)
+        return re.sub(r'\d+(\.\d+)?(_x)?', 'n', sk).replace(' ', '')
+
+    def judge(texts):
+        cs, idx = [], []
+        for i, t in enumerate(texts):
+            try:
+                cs.append({'typings': ['int', 'real'], 'ref': {'form': 'toks', 'toks': X.lex(t), 'tree': X.N(0)},
+                           'obs': {'form': 'tree', 'tree': X.export(parse_expr(t)), 'toks': []}})
+                idx.append(i)
+            except Exception:  # pylint: disable=broad-except
+                pass
+        out = [False] * len(texts)
+        if cs:
+            v = ctx.validate('Trace_ExprEquiv', 'Trace_ExprEquiv', cs)
+            ctx.val_stats.pop()
+            for j, i in enumerate(idx):
+                out[i] = (not v[j][0]) and v[j][1].startswith('value-differs')
+        return out
+
+    def cands(text):
+        toks = [t['s'] for t in X.lex(text)]
+        out = []
+        for i, t in enumerate(toks):
+            if t in ('+', '-', '*', '/', '**') and i + 1 < len(toks) and toks[i + 1] not in ('(', ')', '+', '-', '*', '/', '**', ','):
+                if i + 2 >= len(toks) or toks[i + 2] != '(':
+                    out.append(' '.join(toks[:i] + toks[i + 2:]))
+            if i == 0 and t == '-':
+                out.append(' '.join(toks[1:]))
+            if t == '(' and i + 2 < len(toks) and toks[i + 2] == ')' and (i == 0 or toks[i - 1] in ('+', '-', '*', '/', '**', '(')):
+                out.append(' '.join(toks[:i] + [toks[i + 1]] + toks[i + 3:]))
+            if i >= 1 and toks[i] not in ('(', ')', ',') and toks[i - 1] not in ('(', ')', ',') and \
+                    toks[i - 1] not in ('+', '-', '*', '/', '**') and False:
+                pass
+        return [c for c in dict.fromkeys(out) if c.strip()]
+    cur = [s for _, (s, _, _) in reps]
+    for _ in range(8):
+        cl = [cands(t)[:30] for t in cur]
+        flat = [c for cs in cl for c in cs]
+        if not flat:
+            break
+        res = judge(flat)
+        i = 0
+        prog = False
+        for j, cs in enumerate(cl):
+            done = False
+            for c in cs:
+                if res[i] and not done:
+                    cur[j] = c
+                    prog = done = True
+                i += 1
+        if not prog:
+            break
+    # classification: does the failure disappear once the left-to-right association of * and / is spelled out?
+    explicit = []
+    for small in cur:
+        try:
+            explicit.append(X.explicit_muldiv(small))
+        except Exception:  # pylint: disable=broad-except
+            explicit.append(small)
+    still = judge(explicit)
+    for (skel, (s, tree, clause)), small, ex_text, st in zip(reps, cur, explicit, still):
+        if not st and ex_text != small:
+            ctx.violation('parse_expr:muldiv-chain-associativity',
+                          f'parse_expr({s!r}) = {X.show(tree)}: {clause} (shrunk text {small!r}; parses correctly as {ex_text!r})', {'text': s})
+            continue
+        ctx.violation('parse_expr:' + skeleton(small), f'parse_expr({s!r}) = {X.show(tree)}: {clause} (shrunk text: {small!r})', {'text': s})
     for name, (s, msg) in raised.items():
         ctx.violation(f'parse_expr:raises:{name}', f'parse_expr({s!r}) raised {name}: {msg}', {'text': s})
     ctx.cover.update(strings=len(strings), parsed=len(meta), nonvacuous_accepted=nontriv, skipped_outside_model=skipped,
